@@ -37,12 +37,12 @@ def knownLeak (f : FilterName) (l : Cls) (pos : Nat) (a : Option Cls) : Bool :=
   | .url_encode_, 0 | .base64_encode_, 0 | .base64_url_safe_encode_, 0 => l == str_surrogate
   -- babel
   | .currency_, 0 | .money_, 0 | .money_with_currency_, 0 | .money_without_currency_, 0
-  | .money_without_trailing_zeros_, 0 | .decimal_, 0 => l == int_huge || l == str_hugeint || l == str_exp
+  | .money_without_trailing_zeros_, 0 | .decimal_, 0 => l == int_big || l == int_huge || l == str_hugeint || l == str_exp
   | .datetime_, 0 => l == int_ts || l == int_large || l == int_big || l == int_huge || l == float_inf || l == float_ninf
                      || l == float_nan || l == str_ts || l == str_bigdigits || l == str_hugeint || l == str_exp
                      || l == str_nan || l == str_inf
-  | .unit_, 1 => (a == some str_empty || a == some str_key) &&
-                 (l == int_huge || l == str_hugeint || l == str_exp || l == float_inf || l == float_ninf || l == str_inf
+  | .unit_, 1 => (match a with | some u => u.isStr | none => false) &&
+                 (l == int_big || l == int_huge || l == str_hugeint || l == str_exp || l == float_inf || l == float_ninf || l == str_inf
                   || l == float_nan || l == str_nan)
   | _, _ => false
 
